@@ -266,14 +266,15 @@ type c05SimulCase struct {
 	NPeers  int    `json:"npeers"`
 	Bundles int    `json:"bundles"`
 	Local   bool   `json:"local"`
+	Mixed   bool   `json:"mixed"` // every second peer's transmission succeeds, the others fail (at the same instant)
 }
 
 func TestVerifC05SimultaneousFailures(t *testing.T) {
 	u := vk.Unit{Property: "C05", Name: "c05.simultaneous-failures", Quick: 6, Thorough: 150,
-		Rule: "4..12 peers whose Send calls rendezvous (spin barrier: all transmissions of the bundle are in flight) and then fail together; 8..30 bundles treated this way one after the other (epidemic / prophet / spray with a large budget); then the links recover and one retry tick runs. Oracle: every bundle is still pending after its failures, and the retry offers every bundle to every peer whose transmission had failed. Every case non-trivial; distinct by parameters. The schedule is the runtime's; a failure reproduces only statistically"}
+		Rule: "4..12 peers whose Send calls rendezvous (spin barrier: all transmissions of the bundle are in flight) and then return together - all failing, or every second one succeeding; 8..30 bundles treated this way one after the other (epidemic / prophet / spray with a large budget); then the links recover and one retry tick runs. Oracle: every bundle is still pending after its failures, and the retry offers every bundle to every peer whose transmission had failed. Every case non-trivial; distinct by parameters. The schedule is the runtime's; a failure reproduces only statistically"}
 	vk.Check(t, u, func(t *rapid.T) c05SimulCase {
 		return c05SimulCase{Algo: rapid.SampledFrom([]string{"epidemic", "epidemic", "prophet", "spray"}).Draw(t, "algo"), NPeers: rapid.IntRange(4, 12).Draw(t, "npeers"),
-			Bundles: rapid.IntRange(8, 30).Draw(t, "bundles"), Local: rapid.Bool().Draw(t, "local")}
+			Bundles: rapid.IntRange(8, 30).Draw(t, "bundles"), Local: rapid.Bool().Draw(t, "local"), Mixed: rapid.Bool().Draw(t, "mixed")}
 	}, func(c *vk.Ctx, cs c05SimulCase) {
 		c.NonTrivial()
 		c.Class("algo=" + cs.Algo)
@@ -304,7 +305,10 @@ func TestVerifC05SimultaneousFailures(t *testing.T) {
 		}
 		for i := 0; i < cs.NPeers; i++ {
 			w.s.addPeer(w.names[i])
-			w.s.setFailAll(w.names[i], true)
+			w.s.setFailAll(w.names[i], !cs.Mixed || i%2 == 1)
+		}
+		if cs.Mixed {
+			c.Class("mixed outcomes in one round")
 		}
 		if cs.Algo == "prophet" {
 			c05ProphetAdvertise(w, "dtn://faraway/inbox")
